@@ -24,8 +24,8 @@
 //     OP <name> <result>
 // <object> ::= SCALAR <term> | LIST <n> <terms> | GRID <n> <terms> | SUPPORT <start> <end> <ngrid> <grid terms>
 //            | SPLINE <order> <start> <end> <ngrid> <nintervals> <ncoef> <grid terms> <coefficient terms>
-//            | BOUNDS <n> (<F|L> <derivative> <term>)*
-// <result> ::= <object> | BOOL <0|1> | INDEX <n> | THROW <error code name>
+//            | BOUNDS <n> (<F|L> <derivative> <term>)* | COEFS <n> <m> <n*m terms>
+// <result> ::= <object> (SCALAR, GRID, SUPPORT, SPLINE) | BOOL <0|1> | INDEX <n> | THROW <error code name>
 //            | SPLINES <n> (<SPLINE ...> ;)*
 //            | SYSTEM <n> <n*(n+1) terms row by row, each row followed by its right-hand side> RESULT <SPLINE ...>
 //            | UNINIT <text> | EXCEPTION <what>
@@ -445,6 +445,41 @@ static void family_grid() {
     const Grid g(std::initializer_list<T>{l[0], l[1], l[2]});
     return describe(g);
   });
+
+  // validation of windows and of coefficient counts (no scalar is compared)
+  struct SupCase { size_t s, e; };
+  for (const SupCase &c : {SupCase{0, 4}, SupCase{1, 3}, SupCase{2, 3}, SupCase{0, 0}, SupCase{2, 2}, SupCase{3, 1},
+                           SupCase{0, 5}, SupCase{4, 5}, SupCase{3, 4}}) {
+    scenario("grid_supctor_" + std::to_string(c.s) + "_" + std::to_string(c.e), [&](Env &e) {
+      const Grid &g = e.grid();
+      e.arg("g", describe(g));
+      e.begin();
+      return describe(Support(g, c.s, c.e));
+    });
+  }
+  struct SplCase { const char *name; size_t s, e, n; };
+  for (const SplCase &c : {SplCase{"whole", 0, 4, 3}, SplCase{"whole", 0, 4, 2}, SplCase{"whole", 0, 4, 4},
+                           SplCase{"whole", 0, 4, 0}, SplCase{"one", 1, 3, 1}, SplCase{"one", 1, 3, 0},
+                           SplCase{"one", 1, 3, 2}, SplCase{"point", 2, 3, 0}, SplCase{"point", 2, 3, 1},
+                           SplCase{"empty", 0, 0, 0}, SplCase{"empty", 0, 0, 1}}) {
+    scenario(std::string("grid_splctor_") + c.name + "_" + std::to_string(c.n), [&](Env &e) {
+      const Support sup(e.grid(), c.s, c.e);
+      e.arg("sup", describe(sup));
+      std::vector<std::array<T, 2>> cs(c.n);
+      Printed p;
+      std::ostringstream os;
+      os << "COEFS " << c.n << " 2";
+      for (size_t i = 0; i < c.n; i++)
+        for (size_t j = 0; j < 2; j++) {
+          cs[i][j] = e.var("c" + std::to_string(i) + std::to_string(j));
+          os << " " << cs[i][j].str();
+        }
+      p.text = os.str();
+      e.arg("cs", p);
+      e.begin();
+      return describe(Spline<T, 1>(sup, cs));
+    });
+  }
 
   // findElement
   for (const Pos &p : positions(4)) {
